@@ -506,6 +506,14 @@ func genC20(t *rapid.T) c20Case {
 	if len(c.Txs.Txs) > 4 {
 		c.Txs.Txs = c.Txs.Txs[:4]
 	}
+	if rapid.IntRange(0, 3).Draw(t, "manyouts") == 0 {
+		// one transaction with dozens of outputs, most of which carry watched items
+		big := c10Tx{LockTime: 99, Ins: []c10In{{Src: -3, Out: 7, Script: scriptSpec{Cls: "empty"}}}}
+		for i := rapid.SampledFrom([]int{47, 48, 49, 64, 130}).Draw(t, "nouts"); i > 0; i-- {
+			big.Outs = append(big.Outs, scriptSpec{Cls: []string{"pushes", "p2pk", "p2pkh", "multisig"}[i%4], Items: []int{i % 3, (i + 1) % 3}, Enc: []int{0, 0}, M: i})
+		}
+		c.Txs.Txs = append(c.Txs.Txs[:len(c.Txs.Txs)-1:len(c.Txs.Txs)-1], big)
+	}
 	// the items inserted / queried are the pushes the transactions carry, so MatchTxAndUpdate
 	// really matches outputs and (flags All / P2PubkeyOnly) really writes to the filter
 	for _, it := range c.Txs.Pool {
